@@ -14,9 +14,11 @@ Definition bytes_ok (s : bytes) : bool := forallb (fun c => c <? 256) s.
 (* what may appear in an href after html/template's normaliser *)
 Definition url_safe (c : N) : bool := is_alnum c || memb c (s2b "!#$&*+,/:;=?@[]-._~%").
 
-(* bytes that could leave a quoted attribute value, a tag, or are blank / control *)
+(* bytes that could leave a quoted (or even unquoted) attribute value or open a tag:
+   control bytes and space (<= 32), double quote 34, single quote 39, '<' 60, '>' 62,
+   backslash 92, backquote 96 *)
 Definition attr_danger (c : N) : bool :=
-  (c <? 32) || (c =? 32) || (c =? 34) || (c =? 39) || (c =? 60) || (c =? 62) || (c =? 96) || (c =? 127).
+  (c <=? 32) || (c =? 34) || (c =? 39) || (c =? 60) || (c =? 62) || (c =? 92) || (c =? 96).
 
 Definition is_upper_hex (c : N) : bool := is_digit c || ((65 <=? c) && (c <=? 70)).
 
